@@ -100,6 +100,19 @@ template <class Tag, class BitImg, class Info>
 void bits(const char* fmt, const char* type, int w, int h, vt::Rng& rng, Info const& info, bool with_info, const char* variant) {
     BitImg img(w, h); fill_view_random(gil::view(img), rng);
     one<Tag, typename BitImg::view_t, BitImg>(fmt, type, "bit_aligned", gil::view(img), info, with_info, true, variant);
+    // structured contents: whole bytes of set / clear samples, runs that start and end on and off byte boundaries
+    for (int pat = 0; pat < 4; ++pat) {
+        if (!A->thorough() && (w + h + pat) % 2) continue;
+        auto v = gil::view(img);
+        unsigned long long mx = 0;
+        { auto&& p0 = v(0, 0); gil::static_for_each(p0, [&](auto const& c) { using C = typename std::remove_cv<typename std::remove_reference<decltype(c)>::type>::type; mx = (unsigned long long)gil::channel_traits<C>::max_value(); }); }
+        for (int y = 0; y < h; ++y) for (int x = 0; x < w; ++x) {
+            unsigned val = (unsigned)(pat == 0 ? mx : pat == 1 ? 0u : pat == 2 ? (((x / 8) + y) % 2 ? mx : 0u) : ((x + 3 * y) % 11 < 8 ? mx : 0u));
+            auto&& p = v(x, y); gil::static_for_each(p, [&](auto const& c) { c = val; });
+        }
+        const char* org = pat == 0 ? "bit_aligned/max" : pat == 1 ? "bit_aligned/zero" : pat == 2 ? "bit_aligned/bytes" : "bit_aligned/runs";
+        one<Tag, typename BitImg::view_t, BitImg>(fmt, type, org, v, info, with_info, true, variant);
+    }
 }
 
 int main(int argc, char** argv) {
@@ -153,6 +166,28 @@ int main(int argc, char** argv) {
         gil::image_write_info<gil::jpeg_tag> ji(100);
         orgs<gil::jpeg_tag, gil::gray8_image_t, gil::gray8_image_t>("jpg", "gray8", d.first, d.second, rng, ji, true, false, "q100/large", false);
         orgs<gil::jpeg_tag, gil::rgb8_image_t, gil::rgb8_planar_image_t>("jpg", "rgb8", d.first, d.second, rng, ji, true, false, "q100/large", true);
+    }
+    // 1-bit images wide enough for several whole bytes per row
+    for (auto d : {std::pair<int,int>{29, 4}, {40, 3}, {64, 2}, {17, 5}}) {
+        if (!mine()) continue; vt::Rng rng(args.seed * 13 + d.first);
+        gil::image_write_info<gil::pnm_tag> pi; gil::image_write_info<gil::png_tag> gi;
+        bits<gil::pnm_tag, gray1_img>("pnm", "gray1", d.first, d.second, rng, pi, false, "wide");
+        bits<gil::png_tag, gray1_img>("png", "gray1", d.first, d.second, rng, gi, false, "wide");
+        gil::image_write_info<gil::tiff_tag> fi; fi._compression = COMPRESSION_NONE; fi._photometric_interpretation = PHOTOMETRIC_MINISBLACK;
+        bits<gil::tiff_tag, gray1_img>("tif", "gray1", d.first, d.second, rng, fi, true, "strip/none/wide");
+    }
+    // TIFF with several tiles per row and column, square and non-square tiles, image sizes that are not multiples of the tile
+    {
+        struct TT { int w, h, tw, th; };
+        for (TT t : {TT{40, 40, 16, 32}, TT{40, 40, 32, 16}, TT{33, 50, 16, 16}, TT{50, 21, 16, 32}, TT{21, 70, 32, 16}, TT{48, 32, 16, 16}}) {
+            if (!mine()) continue; vt::Rng rng(args.seed * 31 + t.w * 7 + t.tw);
+            gil::image_write_info<gil::tiff_tag> fi; fi._compression = COMPRESSION_NONE; fi._is_tiled = true; fi._tile_width = t.tw; fi._tile_length = t.th;
+            fi._photometric_interpretation = PHOTOMETRIC_MINISBLACK;
+            gil::image_write_info<gil::tiff_tag> fr = fi; fr._photometric_interpretation = PHOTOMETRIC_RGB;
+            std::string name = "tile" + std::to_string(t.tw) + "x" + std::to_string(t.th) + "/none";
+            orgs<gil::tiff_tag, gil::gray8_image_t, gil::gray8_image_t>("tif", "gray8", t.w, t.h, rng, fi, true, true, name.c_str(), false);
+            orgs<gil::tiff_tag, gil::rgb8_image_t, gil::rgb8_planar_image_t>("tif", "rgb8", t.w, t.h, rng, fr, true, true, name.c_str(), true);
+        }
     }
     J("End").num("events", vt::T().events).emit(); vt::T().close(); return 0;
 }
